@@ -85,7 +85,7 @@ func (r c14Round) rateParams() (limiter string, perSec float64, burst int) {
 	switch r.Kind {
 	case "rate-msgs":
 		return "ws-msgs", float64(r.Cfg.MsgRate), r.Cfg.MsgBurst
-	case "rate-sess":
+	case "rate-sess", "rate-first-sess":
 		return "session-creates", float64(r.Cfg.SessPerMin) / 60, r.Cfg.SessBurst
 	default:
 		return "ws-connects", float64(r.Cfg.ConnPerMin) / 60, r.Cfg.ConnBurst
